@@ -12,48 +12,74 @@ package byteslicepool
 //@ func NewByteSlicePool
 //@   tags C08 C07
 //@   modifies nothing
-//@   ensures fresh(result) && result.MinCap == minCap && result.pool != nil && fresh(result.pool)
+//@   ensures result.MinCap == minCap && result.pool != nil
+// separate pools share nothing: the object and its sync.Pool are both new
+//@   ensures [C08.pool.separate] fresh(result) && fresh(result.pool)
 
+// Ownership protocol of the pool (ghost `released` and the assumed contracts of (*sync.Pool).Get / Put in
+// encv1_libs.spec, which cover []byte elements): released[b] = the backing array b was handed to Put and has not been
+// handed out by Get since. That what Get returns is the caller's alone is the sync.Pool model (assumed there, as
+// freshness); it holds provided every array is put at most once per ownership -- (*sync.Pool).Put's precondition
+// [C08.put.once], which ByteSlicePool.Put can only discharge by passing it on to its own callers
+// ([C08.bsp.put.once]: a second Put of the same array, directly or of an in-place Resize of it, would let Get hand one
+// array to two users) -- and is not used after Put (the caller's side of `released`: obligations of the clients, as
+// [C08.own.*] in schemes/enc/v1; there is no client of ByteSlicePool in this repository).
+// [C08.released.alloc] is the well-formedness of the ghost: only arrays that exist can be in a pool. It is true when
+// the program starts (nothing is released) and kept by Get and Put; the contract language has no global ghost
+// invariant, so clients carry it as a pre/postcondition pair. It is what lets a client put an array it made itself
+// (or got from a growing Resize): a new array is not released.
+//
 // Get: whatever a later Resize or reslice of the returned slice can expose (everything up to its capacity) is
-// zero, whether the slice is new or was used by somebody else before.
+// zero, whether the slice is new or was used by somebody else before; the array is not in the pool any more; no
+// other array changes its status.
 //@ func (ByteSlicePool).Get
 //@   tags C08 C07
 //@   requires inv(sp)
 //@   requires capacity >= 0 || sp.MinCap >= 0
+//@   requires [C08.released.alloc] forall b :: released[b] ==> allocated(b)
 //@   modifies released
+//@   ensures [C08.released.alloc] forall b :: released[b] ==> allocated(b)
 //@   ensures len(result) == 0 && cap(result) >= 0
 //@   ensures [C08.get.zero] forall i :: 0 <= i && i < cap(result) ==> result[i] == 0
+//@   ensures [C08.bsp.get.owned] result != nil ==> !released[result.base]
+//@   ensures [C08.bsp.get.others] forall b :: b != result.base ==> released[b] == old(released[b])
 //@   replay template poolleak
 //@   replay val capacity = capacity
 //@   replay val mincap = sp.MinCap
 // Element invariant of the private pool: only ByteSlicePool.Put stores into sp.pool (unexported field), and it
 // stores a []byte (asserted there).
 //@   at call Get#0 assume res0 != nil ==> typeis(res0, "[]byte")
-// Ownership: what comes out of a sync.Pool belongs to the caller alone (modelled as freshness, as the assumed
-// contract of (*sync.Pool).Get in encv1_libs.spec does for *[]byte elements).
-//@   at call Get#0 assume res0 != nil ==> fresh(unbox(res0, "[]byte"))
 // What the loop does establish: the bytes inside the pooled slice's length are zero.
 //@   at return#1 assert [C08.get.zero.len] forall j :: 0 <= j && j < len(buf) ==> buf[j] == 0
 //@   loop 0 invariant -1 <= rangeindex && rangeindex < len(buf)
 //@   loop 0 invariant forall j :: 0 <= j && j <= rangeindex ==> buf[j] == 0
 
+// Put: the caller gives the array up; each array at most once per ownership.
 //@ func (ByteSlicePool).Put
 //@   tags C08 C07
 //@   requires inv(sp)
+//@   requires [C08.bsp.put.once] bs != nil ==> !released[bs.base]
+//@   requires [C08.released.alloc] forall b :: released[b] ==> allocated(b)
 //@   modifies released
+//@   ensures [C08.released.alloc] forall b :: released[b] ==> allocated(b)
+//@   ensures [C08.bsp.put.released] bs != nil ==> released[bs.base]
+//@   ensures [C08.bsp.put.others] forall b :: b != bs.base ==> released[b] == old(released[b])
 //@   at before call Put#0 assert [C08.pool.elem] typeis(arg1, "[]byte")
 
-// Resize: in place it only moves len inside orig's capacity (same backing array, same start); otherwise the
-// result is a new array holding orig's bytes followed by zeros up to its capacity.
+// Resize: the result has the requested length and starts with orig's bytes. It is either a reslice of orig that stays
+// inside the window of memory orig could already reach (same array, same start, not beyond orig's capacity: nothing
+// of anybody else's becomes visible), or a new array whose bytes after orig's are zero up to its capacity. Neither
+// orig's array nor any other memory is written, and the pool is not involved.
 //@ func (ByteSlicePool).Resize
 //@   tags C08 C07
 //@   requires size >= 0
 //@   modifies nothing
 //@   ensures len(result) == size
-//@   ensures [C08.resize.inplace] size < cap(orig) ==> (result.base == orig.base && result.off == orig.off && cap(result) == cap(orig))
-//@   ensures [C08.resize.fresh] size >= cap(orig) ==> (fresh(result) && cap(result) >= size)
-//@   ensures [C08.resize.prefix] size >= cap(orig) ==> (forall i :: 0 <= i && i < len(orig) ==> result[i] == old(orig[i]))
-//@   ensures [C08.resize.zero] size >= cap(orig) ==> (forall i :: len(orig) <= i && i < cap(result) ==> result[i] == 0)
+//@   ensures [C08.resize.own] fresh(result) || (result.base == orig.base && result.off == orig.off && cap(result) <= cap(orig))
+//@   ensures [C08.resize.cap] cap(result) >= size
+//@   ensures [C08.resize.prefix] forall i :: 0 <= i && i < len(orig) && i < size ==> result[i] == old(orig[i])
+//@   ensures [C08.resize.zero] fresh(result) ==> (forall i :: len(orig) <= i && i < cap(result) ==> result[i] == 0)
+//@   ensures [C08.resize.released] released == old(released)
 
 //@ func max
 //@   tags C08 C07
